@@ -54,6 +54,7 @@ def replay_simulated(chk: Check, cfg: str, clauses: Set[str], num: int, depth: i
         chk.count('behaviours_conforming')
         continue
       clause = d['clause']
+      d['history'] = [s.state['act'] for s in beh[1:d['step'] + 1]]
       claimed = clause in clauses or (clause in ('bind', 'oneplace') and 'parent' in clauses)
       if clause == 'hang':
         claimed = True
